@@ -244,6 +244,7 @@ class CoRLock:
                 c.edges.add((h, self.name))
             self.owner = st
             self.count = 1
+            self.serial = getattr(self, "serial", 0) + 1     # one number per critical section of this lock
             st.held.append(self.name)
             c.trace.append((st.tid, "acq", self.name))
         return True
